@@ -14,7 +14,8 @@ from vlib.runner import Violation, hyp_run
 PROPERTY = "C15"
 LEVEL = "exploration"
 RULE = ("api: Hypothesis draws a limit L in [1, 10^7] (or None / 0), a reset period in [0.01, 100], 1-4 streams in a "
-        "topology (one shared throttle / clones / opposite-direction limit only / two throttles with different limits), "
+        "topology (one shared throttle / the same plus a stream whose I/O stays pending for 2-50 reset periods / clones / "
+        "opposite-direction limit only / two throttles with different limits), "
         "per stream a trace of (chunk size, I/O duration, idle gap) with gaps shorter and longer than the reset period, "
         "and optional limit changes through the setter; the real ThrottleStreamIO.read/write run over in-memory streams "
         "on the virtual clock. Oracle (exact rationals): at every I/O start t, bytes of I/Os completed before t <= "
@@ -29,7 +30,7 @@ RULE = ("api: Hypothesis draws a limit L in [1, 10^7] (or None / 0), a reset per
 ASSUMPTIONS = [
     "tolerance: 1/1000 byte per accounting step plus 1e-9 relative float error and one byte (the reset fold is exact since the F25 repair)",
     "end to end: control-channel bytes pass through the same throttles and are counted in the scope's byte total",
-    "each connection transfers its own file (MemoryPathIO keeps one read position per file)",
+    "each connection transfers its own file",
 ]
 REPLAY_ATTEMPTS = 2
 
@@ -72,7 +73,7 @@ API = st.tuples(
     st.one_of(st.integers(1, 10 ** 7), st.sampled_from([1, 7, 1000, 65536])),
     st.sampled_from([0.01, 0.5, 1, 10, 100]),
     st.sampled_from(["read", "write"]),
-    st.sampled_from(["single", "single", "shared", "cloned", "opposite_only", "unlimited", "zero", "two_limits", "setter"]),
+    st.sampled_from(["single", "single", "shared", "shared_pending", "cloned", "opposite_only", "unlimited", "zero", "two_limits", "setter"]),
     st.lists(OPS, min_size=1, max_size=4),
     st.integers(2, 50))
 
@@ -122,6 +123,11 @@ async def _api(loop, case, out):
     main = aioftp.Throttle(limit=L, reset_rate=R)
     streams = []
     scopes = []  # (limit, [sids])
+    if topo == "shared_pending":
+        # one more stream on the same throttle whose single I/O stays pending for L2div reset periods while the others
+        # move data (a control connection waiting for its next command during a transfer), then goes on
+        traces = list(traces) + [[(6, min(500.0, L2div * R), 0)] + list(traces[0][:3])]
+        topo = "shared"
     nstreams = len(traces) if topo in ("shared", "cloned") else 1
     if topo in ("single", "setter"):
         streams.append(dict(throttles={"a": st_for(main)}))
@@ -188,7 +194,7 @@ def check_api(ctx, case):
     detail = dict(limit=L, reset_rate=R, direction=direction, topology=topo, traces=[t[:6] for t in traces[:2]])
     crosses = any(gap > R for t in traces for _n, _d, gap in t)
     unequal = any(len({n for n, _d, _g in t}) > 1 for t in traces)
-    ctx.count(case, crosses or unequal or topo in ("two_limits", "shared", "setter"),
+    ctx.count(case, crosses or unequal or topo in ("two_limits", "shared", "shared_pending", "setter"),
               sample=dict(limit=L, reset_rate=R, direction=direction, topology=topo, trace=traces[0][:5], ios=len(log)),
               classes=["topo_" + topo, "dir_" + direction] + (["crosses_reset"] if crosses else []) + (["unequal_chunks"] if unequal else []))
     if topo in ("opposite_only", "unlimited", "zero"):
